@@ -73,4 +73,11 @@ PROPS = {
              "store-call index with exactly that call (Get, Set, lazy Data(), lazy ReadDirNames()) failing; distinct = distinct (fault index, history) term",
         level_text="TODO", level_note="TODO", assumptions=[],
     ),
+    "C09": dict(
+        imports="Base.Path OSPath.OSPath", check="C09_check", ctype="os_case",
+        show="c", n=dict(quick=400, thorough=20000), chunk=600,
+        rule="roots from 0..3 Sub calls over names with '.', '..', empty elements, backslash and colon; volumes '', C:, D:, UNC share; (linux,'/') and (windows,'\\') conventions through the verif shim; "
+             "per configuration 6 names and OS-path candidates derived from them (trailing/double separators, '..', root look-alikes, other volume, relative); plus failing calls on the real os.FS under 0..2 Sub roots; distinct = distinct term",
+        level_text="TODO", level_note="TODO", assumptions=[],
+    ),
 }
